@@ -77,6 +77,7 @@ type Spec struct {
 	Cancel  Cancel  `json:"cancel"`
 	HoldUS  int     `json:"hold_us,omitempty"` // eager policy: how long a task holds (max, microseconds)
 	Chunks  int     `json:"chunks,omitempty"`
+	SerialMask int  `json:"serial_mask,omitempty"` // bit g set: graph g of a shared-task workload runs in serial mode
 	NGraphs int     `json:"ngraphs,omitempty"` // >1: several graphs over the same Tasks run concurrently (eager only)
 }
 
@@ -254,6 +255,8 @@ type Trace struct {
 	TaskCounters []int  `json:"task_counters,omitempty"`
 	CancelSeq  int      `json:"cancel_seq,omitempty"`
 	LateEntriesAfterCancel int `json:"late_entries_after_cancel,omitempty"`
+	TicksAfterCancel int `json:"ticks_after_cancel,omitempty"`
+	Stalled string `json:"stalled,omitempty"`
 }
 
 type ErrEntry struct {
@@ -357,6 +360,7 @@ type runner struct {
 	taskCounters []int // plain, per Task (shared-task workloads)
 
 	attempts [][]int32 // per graph, per task: attempts started
+	cancelReturned int32
 	cancel   context.CancelFunc
 	rng      uint64
 	sentinels []error
@@ -425,6 +429,7 @@ func (r *runner) taskFn(i int) getoptions.CommandFn {
 		if r.spec.Cancel.Kind == "inside-task" && r.spec.Cancel.K == i && attempt == 1 && gi == 0 {
 			r.cancel()
 			r.log(Event{Kind: EvCancel})
+			atomic.StoreInt32(&r.cancelReturned, 1)
 		}
 		// (3) park / hold
 		if r.spec.Policy == "eager" {
@@ -504,7 +509,7 @@ func (r *runner) build(gi int, tasks []*dag.Task) *dag.Graph {
 			g.TaskDependsOn(tasks[c.A], deps...)
 		}
 	}
-	if r.spec.Serial {
+	if r.spec.Serial || r.spec.SerialMask&(1<<uint(gi)) != 0 {
 		g.SetSerial()
 	}
 	if r.spec.MaxPar > 0 {
@@ -579,6 +584,7 @@ func Execute(spec *Spec) *Trace {
 	if spec.Cancel.Kind == "before-run" {
 		cancel()
 		r.log(Event{Kind: EvCancel})
+		atomic.StoreInt32(&r.cancelReturned, 1)
 	}
 	type runRes struct {
 		gi  int
@@ -649,6 +655,8 @@ func Execute(spec *Spec) *Trace {
 		var lastTick uint64
 		var lastCounts [4]int
 		stable := 0
+		stableSince := time.Now()
+		cancelSeen := false
 	CONTROL:
 		for returned < ng {
 			select {
@@ -661,13 +669,31 @@ func Execute(spec *Spec) *Trace {
 			tick, p, ip, sk, dn := unpack(s)
 			if s != 0 && tick != lastTick {
 				tr.IdleTicks++
+				if cancelSeen {
+					tr.TicksAfterCancel++
+				} else if atomic.LoadInt32(&r.cancelReturned) == 1 {
+					cancelSeen = true // ticks are counted from the next one on
+				}
 				c := [4]int{p, ip, sk, dn}
 				if c == lastCounts {
 					stable++
 				} else {
 					stable = 0
+					stableSince = time.Now()
 				}
 				lastTick, lastCounts = tick, c
+				// bounded progress: every started task function has returned, nothing is parked, the scheduler idles with
+				// vertices in progress and its state has not changed for thousands of iterations and several seconds
+				if ip > 0 && stable >= 2000 && time.Since(stableSince) > 3*time.Second && atomic.LoadInt32(&r.live) == 0 {
+					r.mu.Lock()
+					np := len(r.parked)
+					r.mu.Unlock()
+					if np == 0 {
+						tr.Stalled = fmt.Sprintf("no task function is executing, yet the scheduler has idled for %d iterations (%.1fs) with pending=%d inprogress=%d skip=%d done=%d", stable, time.Since(stableSince).Seconds(), p, ip, sk, dn)
+						abandon()
+						break CONTROL
+					}
+				}
 				if ip == 0 && dn < p+ip+sk+dn {
 					// nothing ready, nothing running, not everything done: a fixpoint of the scheduler loop
 					tr.Deadlock = true
@@ -757,6 +783,7 @@ func Execute(spec *Spec) *Trace {
 					if spec.Cancel.Kind == "after-release" && releases >= spec.Cancel.K && tr.CancelSeq == 0 {
 						cancel()
 						tr.CancelSeq = r.log(Event{Kind: EvCancel})
+						atomic.StoreInt32(&r.cancelReturned, 1)
 					}
 					stable = 0
 					deadline = time.Now().Add(watchdog)
@@ -778,7 +805,7 @@ func Execute(spec *Spec) *Trace {
 	left := r.parked
 	r.parked = nil
 	r.mu.Unlock()
-	if !tr.Deadlock && tr.Timeout == "" {
+	if !tr.Deadlock && tr.Timeout == "" && tr.Stalled == "" {
 		tr.ParkedAtReturn = len(left)
 	}
 	for _, pt := range left {
@@ -824,7 +851,7 @@ func Execute(spec *Spec) *Trace {
 	rec.mu.Lock()
 	tr.LogLines = append([]string{}, rec.lines...)
 	rec.mu.Unlock()
-	if returned >= ng && !tr.Deadlock && tr.Timeout == "" {
+	if returned >= ng && !tr.Deadlock && tr.Timeout == "" && tr.Stalled == "" {
 		// every Run returned: its goroutines are gone, plain state can be read
 		tr.Output = string(r.out.buf)
 		tr.OutputWrites = r.out.writes
